@@ -319,6 +319,86 @@ func xlateInterp(args []string) error {
 		add("for_step_after_continue", stepOK, "on CONTINUEFLAG the step assignment is evaluated (its error returned) before the next pass")
 	}
 
+	// ---- every node type: the compiled tree is READ-ONLY at run time.  Pool instances share one compiled tree and a rule
+	// named twice runs twice at once on it, so anything an Evaluate / Execute method stores in its own node is shared by
+	// executions that must not see each other (C06, C15, C18, C19).  Checked: in every file of internal/base, no method whose
+	// name starts with Evaluate or Execute (and no function literal inside one) assigns to, increments, or appends into a
+	// field of its receiver, or takes its address.
+	{
+		entries, err := os.ReadDir(dir)
+		if err != nil {
+			return err
+		}
+		var offenders []string
+		for _, e := range entries {
+			if e.IsDir() || !strings.HasSuffix(e.Name(), ".go") || strings.HasSuffix(e.Name(), "_test.go") {
+				continue
+			}
+			f, err := parse(e.Name())
+			if err != nil {
+				return err
+			}
+			for _, d := range f.Decls {
+				fd, ok := d.(*ast.FuncDecl)
+				if !ok || fd.Body == nil || fd.Recv == nil || len(fd.Recv.List) != 1 || len(fd.Recv.List[0].Names) != 1 {
+					continue
+				}
+				if !strings.HasPrefix(fd.Name.Name, "Evaluate") && !strings.HasPrefix(fd.Name.Name, "Execute") && !strings.HasPrefix(fd.Name.Name, "evaluate") && !strings.HasPrefix(fd.Name.Name, "execute") {
+					continue
+				}
+				recv := fd.Recv.List[0].Names[0].Name
+				rooted := func(e ast.Expr) bool { // recv.f, recv.f[i], recv.f.g, *recv ...
+					for {
+						switch t := e.(type) {
+						case *ast.SelectorExpr:
+							if id, ok := t.X.(*ast.Ident); ok && id.Name == recv {
+								return true
+							}
+							e = t.X
+						case *ast.IndexExpr:
+							e = t.X
+						case *ast.StarExpr:
+							e = t.X
+						case *ast.ParenExpr:
+							e = t.X
+						default:
+							return false
+						}
+					}
+				}
+				where := func(n ast.Node) string {
+					return fmt.Sprintf("%s:%s:%d", e.Name(), fd.Name.Name, fset.Position(n.Pos()).Line)
+				}
+				ast.Inspect(fd.Body, func(n ast.Node) bool {
+					switch t := n.(type) {
+					case *ast.AssignStmt:
+						if t.Tok != token.DEFINE {
+							for _, l := range t.Lhs {
+								if rooted(l) {
+									offenders = append(offenders, where(l))
+								}
+							}
+						}
+					case *ast.IncDecStmt:
+						if rooted(t.X) {
+							offenders = append(offenders, where(t))
+						}
+					case *ast.UnaryExpr:
+						if t.Op == token.AND && rooted(t.X) {
+							offenders = append(offenders, where(t))
+						}
+					}
+					return true
+				})
+			}
+		}
+		why := "no Evaluate*/Execute* method of internal/base assigns to, increments or takes the address of a field of its receiver: the compiled tree is read-only at run time"
+		if len(offenders) > 0 {
+			why += " — OFFENDING: " + strings.Join(offenders, ", ")
+		}
+		add("tree_read_only_at_run_time", len(offenders) == 0, why)
+	}
+
 	sort.Slice(facts, func(i, j int) bool { return facts[i].name < facts[j].name })
 	w := os.Stdout
 	fmt.Fprintln(w, "(* GENERATED by harness/cmd/xlate (T4) from internal/base/*.go — do not edit. *)")
